@@ -126,7 +126,7 @@ func runC14(c *Ctx) {
 		if !ok || len(el) != 1 {
 			continue
 		}
-		forms, why := relocForms(el[0], map[ssa.Value]bool{}, 0)
+		forms, why := relocForms(el[0], map[ssa.Value]bool{}, 0, factsAt(cl))
 		bad := why
 		nGood := 0
 		for _, f := range forms {
@@ -420,7 +420,7 @@ type relocForm struct {
 
 // relocForms enumerates the alternative linear forms of v in parseStackPCs: phis are expanded
 // (self-references through the loop are dropped), +/− are followed, conversions are transparent.
-func relocForms(v ssa.Value, busy map[ssa.Value]bool, depth int) ([]relocForm, string) {
+func relocForms(v ssa.Value, busy map[ssa.Value]bool, depth int, facts []Fact) ([]relocForm, string) {
 	if depth > 24 {
 		return nil, " expression too deep"
 	}
@@ -430,13 +430,13 @@ func relocForms(v ssa.Value, busy map[ssa.Value]bool, depth int) ([]relocForm, s
 			return []relocForm{{l: linConst(k)}}, ""
 		}
 	case *ssa.Convert:
-		return relocForms(x.X, busy, depth+1)
+		return relocForms(x.X, busy, depth+1, facts)
 	case *ssa.ChangeType:
-		return relocForms(x.X, busy, depth+1)
+		return relocForms(x.X, busy, depth+1, facts)
 	case *ssa.BinOp:
 		if x.Op == token.ADD || x.Op == token.SUB {
-			a, wa := relocForms(x.X, busy, depth+1)
-			b, wb := relocForms(x.Y, busy, depth+1)
+			a, wa := relocForms(x.X, busy, depth+1, facts)
+			b, wb := relocForms(x.Y, busy, depth+1, facts)
 			if wa+wb != "" {
 				return nil, wa + wb
 			}
@@ -462,8 +462,12 @@ func relocForms(v ssa.Value, busy map[ssa.Value]bool, depth int) ([]relocForm, s
 		busy[x] = true
 		defer delete(busy, x)
 		var out []relocForm
+		dead := deadEdges(x.Block(), facts)
 		for i, e := range x.Edges {
-			fs, w := relocForms(e, busy, depth+1)
+			if dead[i] {
+				continue // ruled out where the value is used (e.g. the error exit of the PC parser)
+			}
+			fs, w := relocForms(e, busy, depth+1, facts)
 			if w != "" {
 				return nil, w
 			}
